@@ -266,6 +266,9 @@ class TradSystem(c05.System):
         return c05.Holder(o)
 
     def observe(self, h):
+        # "touch": read the statistics (as a user would between steps) but merge states on canon only
+        for name, args in ACCESSORS:
+            _call(h.obj, name, args, "lognormal")
         return None
 
     def invariant(self, h, hist, ctx, root):
@@ -299,6 +302,9 @@ class AziSystem(c11.System):
         return HvsrAzimuthal(hs, list(az or self.az), meta=real_meta("azi", self.az))
 
     def observe(self, h):
+        # "touch": read the statistics (as a user would between steps) but merge states on canon only
+        for name, args in ACCESSORS:
+            _call(h.obj, name, args, "lognormal")
         return None
 
     def invariant(self, h, hist, ctx, root):
@@ -386,7 +392,7 @@ def run_root(root, ctx, tier):
     cls = dict(trad=TradSystem, azi=AziSystem, diffuse=DiffuseSystem)[root["kind"]]
     try:
         sysm = cls(root)
-        explorer.bfs(sysm, root, root["depth"], ctx, key_prefix="C12")
+        explorer.bfs(sysm, root, root["depth"], ctx, key_prefix="C12", touch=True)
     finally:
         global _TMP
         if _TMP is not None:
